@@ -25,11 +25,11 @@ struct Work { const char* name; const char* kind; std::string rules; std::functi
 struct TimedOut { int rc = 0; std::string trace; int64_t reads = 0; uint64_t work = 0; uint64_t max_gap = 0; int64_t reads_after_expiry = 0; int msgs_after_expiry = 0; bool expired = false; };
 
 static uint64_t g_last_bb, g_max_gap; static int64_t g_expired_at_read; static Recorder* g_rec; static int g_msgs_at_expiry; static int64_t g_timeout_ns, g_start_ns;
-static TimedOut timed_scan(YR_RULES* rules, const std::string& buf, int timeout_s, int64_t jump_at_read, int64_t step_ns, YR_SCANNER* reuse = nullptr) {
+static TimedOut timed_scan(YR_RULES* rules, const std::string& buf, int timeout_s, int64_t jump_at_read, int64_t step_ns, YR_SCANNER* reuse = nullptr, int64_t phase_ns = 0) {
   TimedOut o; Recorder rec; g_rec = &rec;
   YR_SCANNER* sc = reuse; if (!sc) yr_scanner_create(rules, &sc);
   yr_scanner_set_callback(sc, recorder_callback, &rec); yr_scanner_set_timeout(sc, timeout_s);
-  sim_clock_reset(); g_clock.step_ns = step_ns; g_clock.jump_at_read = jump_at_read; g_clock.jump_ns = (int64_t) (timeout_s + 1) * 1000000000LL;
+  sim_clock_reset(); g_clock.now_ns += phase_ns; g_clock.step_ns = step_ns; g_clock.jump_at_read = jump_at_read; g_clock.jump_ns = (int64_t) (timeout_s + 1) * 1000000000LL;
   g_last_bb = g_bb_count; g_max_gap = 0; g_expired_at_read = -1; g_msgs_at_expiry = 0; g_timeout_ns = (int64_t) timeout_s * 1000000000LL; g_start_ns = -1;
   g_clock.on_read = [](int64_t r) {
     uint64_t now = g_bb_count; if (r > 1 && now - g_last_bb > g_max_gap) g_max_gap = now - g_last_bb; g_last_bb = now;
@@ -84,6 +84,17 @@ static void run_time_work(const Work& w, int wi, bool thorough, uint64_t seed, S
     st.runs++; st.c["sim_time_ns"] += 0; free_runs.push_back(f);
     Hash64 h0; h0.add(w.name); h0.addu(s); h0.addu(0); st.hash(h0.h);
     if (f.rc != z.rc || f.trace != z.trace) { J r2 = rp; r2.set("j", -1); emit_c15("timeout-setting-changes-result", "time|result-differs-with-timeout-set", w.name, r2, reported, st); }
+    // a clock that moves but stays short of the deadline must not produce a timeout, whatever the phase of the clock's
+    // nanosecond field at the start (the elapsed-time arithmetic borrows across the second boundary)
+    if (only_j < -1 && f.reads >= 2) {
+      static const int64_t PH[] = {0, 300000000LL, 950000000LL, 999999000LL};
+      for (int tmo : {1, 2}) for (int64_t ph : PH) {
+        int64_t step = (int64_t) tmo * 800000000LL / f.reads; if (step < 1) step = 1;
+        TimedOut n = timed_scan(rules, buf, tmo, -1, step, nullptr, ph);
+        st.runs++; st.c["faults_fired.clock_advances_short_of_deadline"]++; st.c["sim_time_ns"] += step * n.reads;
+        if (n.rc != f.rc || n.trace != f.trace) { J r2 = rp; r2.set("j", -1); emit_c15("timeout-early", std::string("time|") + w.kind + "|timeout-before-deadline|rc=" + yr_error_name(n.rc), std::string(w.name) + " scale " + std::to_string(s) + ": timeout " + std::to_string(tmo) + " s, the clock starts " + std::to_string(ph) + " ns into a second and advances by " + std::to_string(step * n.reads) + " ns in total: scan returned " + yr_error_name(n.rc), r2, reported, st); }
+      }
+    }
     // floor: one read per started 4096-byte stretch of data in the scan phase is what the property's "however large the data" needs at least asymptotically;
     // checked as scaling below rather than as a constant.
     // expiry at read j, for every j (exhaustive when few), sampled above
@@ -296,10 +307,43 @@ static void run_slow_warning(Stats& st, std::set<std::string>& reported) {
   }
 }
 
+
+// Regexp code size far beyond the limit, where 16-bit jump distances wrap: the skipped side of an alternation grows
+// from a few hundred bytes to about four times the 32 KiB a forward jump can span.  Once a size is rejected every
+// larger one must be rejected too, and an accepted regexp must scan without dying.
+static void run_regex_jump_sweep(Stats& st, std::set<std::string>& reported) {
+  J rp = J::obj(); rp.set("engine", "sim_clock"); rp.set("mode", "limits"); rp.set("boundary", "@regex-jump-sweep");
+  static const char* SHAPES[] = {"abcdef(x|(((%s){3}){3}){3})yz", "abcdef((((%s){3}){3}){3})?yz", "abcdef(((%s){3}){3}){1,3}yz", "abcdef((((%s){3}){3}){3})*yz"};
+  for (int shape = 0; shape < 4; shape++) {
+    int first_reject = -1;
+    for (int k = 1; k <= 150; k += (k < 30 ? 7 : 1)) {
+      std::string cls; for (int c = 0; c < k; c++) cls += "[ab]";     // k literal copies: {k} would be compiled as a counted loop, not unrolled
+      std::string res = SHAPES[shape]; res.replace(res.find("%s"), 2, cls); const char* re = res.c_str();
+      int le = 0; YR_RULES* r = NULL; int e = compile_err(std::string("rule x { strings: $r = /") + re + "/ condition: $r }", le, &r);
+      st.runs++; st.c["boundary.regex-jump-sweep"]++; Hash64 h; h.add("rjs"); h.addu(shape); h.addu(k); st.hash(h.h);
+      std::string at = std::string("/") + std::string(re).substr(0, 80) + (strlen(re) > 80 ? "..." : "") + "/ (" + std::to_string(k) + " classes): ";
+      if (e) {
+        st.c["faults_fired.limit_exceeded"]++; if (first_reject < 0) first_reject = k;
+        if (le != ERROR_REGULAR_EXPRESSION_TOO_LARGE && le != ERROR_REGULAR_EXPRESSION_TOO_COMPLEX) emit_c15("limit-wrong-error", std::string("boundary|regex-jump-sweep|error=") + yr_error_name(le), at + "rejected with " + yr_error_name(le), rp, reported, st);
+      } else {
+        if (first_reject >= 0) emit_c15("limit-not-monotone", "boundary|regex-jump-sweep|accepted-above-a-rejected-size", at.substr(0, 60) + "... (" + std::to_string(k) + " classes) accepted although the same shape with " + std::to_string(first_reject) + " classes was rejected as too large", rp, reported, st);
+        // an accepted regexp must be usable: scan data that reaches the alternation
+        std::string b = "zz abcdefxyz abcdef" + std::string(k * 27, 'a') + "yz abcdefyz";
+        IsoResult iso = sim_isolate([&] { Recorder rec; int rc = yr_rules_scan_mem(r, (const uint8_t*) b.data(), b.size(), 0, recorder_callback, &rec, 0); iso_emit(yr_error_name(rc)); }, 120);
+        if (iso.kind != 0) emit_c15("limit-memory-error", "boundary|regex-jump-sweep|accepted-regexp-dies-when-scanned|" + sim_crash_signature(iso).substr(0, 50), at + iso.err.substr(0, 800), rp, reported, st);
+      }
+      if (r) yr_rules_destroy(r);
+    }
+    if (first_reject < 0) emit_c15("limit-not-enforced", "boundary|regex-jump-sweep|never-rejected", std::string("shape ") + SHAPES[shape] + " accepted up to 150 classes", rp, reported, st);
+  }
+  if (!library_usable()) emit_c15("unusable-after-limit", "boundary|regex-jump-sweep|library-unusable-afterwards", "follow-up compile+scan failed", rp, reported, st);
+}
+
 static void run_boundaries(Stats& st, std::set<std::string>& reported, const std::string& only = "") {
   if (only.empty() || only == "@scanner-after-limit") run_scanner_after_limit(st, reported);
   if (only.empty() || only == "@stack-sweep") run_stack_sweep(st, reported);
   if (only.empty() || only == "@slow-warning") run_slow_warning(st, reported);
+  if (only.empty() || only == "@regex-jump-sweep") run_regex_jump_sweep(st, reported);
   if (!only.empty() && only[0] == '@') return;
   std::vector<Lim> lims;
   lims.push_back({"loop-nesting", YR_MAX_LOOP_NESTING, [](int n, int& e, int& le, int& rc) { std::string c = "true"; for (int i = n; i >= 1; i--) c = "for any v" + std::to_string(i) + " in (0..1) : ( " + c + " )"; e = compile_err("rule x { condition: " + c + " }", le); rc = 0; }, {ERROR_LOOP_NESTING_LIMIT_EXCEEDED}});
